@@ -179,6 +179,15 @@ void h_Swap()
    // NullChunk, so the other node would be dropped from the list.  Callers: class_colon_pos.cpp swaps adjacent chunks,
    // Chunk::SwapLines swaps the two newline chunks that end the lines; see DESIGN.md, latent hazards.)
    __CPROVER_assume(IMP(a != NIL && b != NIL && aN != b && bN != a, aP != NIL && bP != NIL));
+   // exhaustive case split over the three shapes the code distinguishes (one proof per case, run in parallel):
+   //   SWAP_CASE 0: an argument is the NullChunk, or the two nodes are not adjacent;  1: a directly before b;  2: b directly before a
+#if SWAP_CASE == 0
+   __CPROVER_assume(a == NIL || b == NIL || (aN != b && bN != a));
+#elif SWAP_CASE == 1
+   __CPROVER_assume(a != NIL && b != NIL && aN == b);
+#else
+   __CPROVER_assume(a != NIL && b != NIL && aN != b && bN == a);
+#endif
    g_lm.Swap(a, b);
    ENSURE(INV_LM() && INV(X), "Swap preserves the list invariant");
    if (a != NIL && b != NIL)
